@@ -591,6 +591,9 @@ def x_For(eng, node, st):
         if seq.ty.kind == "emptylist":
             outs.append((s, NEXT))
             continue
+        if seq.ty.kind == "str":
+            outs += for_over_str(eng, node, s, seq, idx)
+            continue
         if seq.ty.kind != "seq":
             raise Unsupported("for over %r" % (seq.ty,))
         if seq.const != "fresh" and not eng.lemma_mode:
@@ -600,6 +603,32 @@ def x_For(eng, node, st):
             continue
         outs += for_over_seq(eng, node, s, seq, idx)
     return outs
+
+
+def for_over_str(eng, node, s, text, idx):
+    """for ch in <str>: one-character substrings in order (strings are immutable)."""
+    s.env[idx] = SV(INT, z3.IntVal(0))
+    s.env["_i"] = s.env[idx]
+    s.env["_seq"] = text
+
+    def head(h):
+        return [(h, h.env[idx].t < z3.Length(text.t))]
+
+    def prefix(h):
+        i = h.env[idx]
+        e = SV(STR, z3.SubString(text.t, i.t, 1))
+        h.assume(z3.Length(e.t) == 1)
+        h.env[idx] = SV(INT, i.t + 1)
+        h.env["_i"] = i
+        return assign_target(eng, node.target, e, h)
+
+    def step(h, n):
+        h.env["_i"] = h.env[idx]
+    eng.loop_step = step
+    try:
+        return run_loop(eng, node, s, head, prefix, extra_havoc=(idx, "_i"))
+    finally:
+        eng.loop_step = None
 
 
 def for_live(eng, node, s, idx):
